@@ -99,6 +99,8 @@ def run(M, rep, tier, only=None):
                   technique="path-sensitive abstract interpretation: event order + taint of the refusing guard")
     R2 = rep.rule("C12.R2", "pre-write refusal inventory does not shrink", floor=60,
                   technique="refusal inventory per API member vs confirmed inventory")
+    R7 = rep.rule("C12.R7", "a clean-up handler deletes only what the refused call itself created", floor=1,
+                  technique="event order on raising paths: deletions after the handler mark need a write before it")
     R3 = rep.rule("C12.R3", "create_multi_tag rolls back exactly the arrays it created and re-raises", floor=1,
                   technique="handler paths: created-flag / delete-key correspondence")
     triage = load(TRIAGE, {"entries": []})
@@ -130,6 +132,23 @@ def run(M, rep, tier, only=None):
                     trs.setdefault(k, v)
             except Budget:
                 pass
+        # R7: what a refused call undoes in a handler it must have done itself
+        bad7 = None
+        for p in paths:
+            if p.terminal[0] != "raise":
+                continue
+            hidx = [e.idx for e in p.events if e.kind == "mark" and e.op.startswith("handler:")]
+            if not hidx:
+                continue
+            h0 = hidx[0]
+            dels = [e for e in p.events if e.idx > h0 and e.kind == "layer" and e.op.split(".")[-1] in ("delete", "delete_all", "__delitem__")]
+            made = [e for e in p.events if e.idx < h0 and ctx.fx.is_observable_write(e)]
+            if dels and not made:
+                bad7 = (p, dels[0])
+        if any(isinstance(n_, ast.Try) for n_ in ast.walk(f.node)):
+            rep.check(R7, key, bad7 is None, "%s: on a refused call the clean-up handler deletes (%s) although the call had not created "
+                      "anything yet -- what it deletes existed before the call (e.g. the entity whose name made the call a duplicate)" % (
+                          key, bad7[1].op if bad7 else ""), site=bad7[1].site if bad7 else None, detail=describe_path(bad7[0], 40) if bad7 else None)
         inv = {}
         for rk, ps in pre.items():
             parts = [x for x in rk.split(":") if x != "implicit"]
